@@ -73,6 +73,11 @@ def cases(tier, seed, args):
                             metric=['cos', 'euclidean', 'multiply'][(i // 20) % 3],
                             alg=['greedy', 'optimal'][(i // 60) % 2],
                             dtype=['float64', 'float32'][(i // 7) % 2]))
+        # whole spectra: more than 256 bins
+        for i in range(6 if q else 24):
+            out.append(dict(t='aligner', aligner=['greedy', 'dhtv', 'oracle'][i % 3], K=2 + (i // 3) % 2, F=[257, 513, 301][(i // 3) % 3], T=int(rng.integers(3, 7)),
+                            seed=int(rng.integers(1 << 30)), regime=['float', 'unit'][(i // 3) % 2], metric=['cos', 'euclidean', 'multiply'][(i // 2) % 3],
+                            alg=['greedy', 'optimal'][i % 2], dtype='float64'))
     if prop == 'C15':
         n = 120 if q else 1500
         for i in range(n):
@@ -89,6 +94,11 @@ def cases(tier, seed, args):
             out.append(dict(t='oracle_inv', K=2 + i % 2, F=[257, 301, 513][i % 3], T=int(rng.integers(3, 6)), seed=int(rng.integers(1 << 30)),
                             metric=['euclidean', 'cos', 'multiply'][i % 3 if i >= 3 else 0], alg=['greedy', 'optimal'][(i // 3) % 2],
                             glob=False, regime='normal'))
+        # signed references (real-valued features): in some bins one class row is a negative multiple of another
+        for i in range(12 if q else 72):
+            out.append(dict(t='oracle_inv', K=2 + i % 3, F=int(rng.choice([3, 5, 9])), T=int(rng.integers(4, 10)), seed=int(rng.integers(1 << 30)),
+                            metric=['cos', 'multiply', 'euclidean'][i % 3], alg=['greedy', 'optimal'][(i // 3) % 2], glob=bool((i // 6) % 2),
+                            regime='signed'))
     if prop == 'C16plan':
         mx = int(args.get('max_stft', 24))
         for stft in range(2, mx + 1):
@@ -198,6 +208,21 @@ def _assign_int(S, alg, batch=0):
             res = res[:, -1]
     if not np.array_equal(arg, snap, equal_nan=True):
         res, exc = None, 'InputMutated'
+    if res is not None:
+        # the caller owns the result: writing into it (e.g. inverting the mapping in place) must not change what a later
+        # call with the same scores returns
+        keep = np.array(res, copy=True)
+        try:
+            full_res = res.base if (batch and res.base is not None) else res
+            full_res[...] = np.roll(full_res, 1, axis=0)
+        except (ValueError, TypeError):
+            pass
+        again, exc2 = _call(pa._mapping_from_score_matrix, arg, alg)
+        if again is not None and batch:
+            again = again[:, -1]
+        if again is None or not np.array_equal(np.asarray(again), keep):
+            return None, 'ResultAliased'
+        res = keep
     return res, exc
 
 
@@ -401,6 +426,13 @@ def _oracle_inv(case):
         ref = ref * float(rng.choice([1e-18, 1e-20, 1e-25]))
     elif regime == 'rowtiny':        # some classes inactive in some bins (posteriors ~1e-20) but with clear directions
         ref = ref * rng.choice([1.0, 1e-18, 1e-20, 1e-22], size=(K, F, 1))
+    if regime == 'signed':
+        ref = rng.standard_normal((K, F, T))
+        g = float(rng.choice([0.5, 1.0, 2.0, 3.0]))
+        if case['glob']:
+            ref[1] = -g * ref[0]
+        else:
+            ref[1, ::2] = -g * ref[0, ::2]
     field = np.stack([rng.permutation(K) for _ in range(F)], axis=1)
     if case['glob']:
         field = np.repeat(rng.permutation(K)[:, None], F, axis=1)
